@@ -213,18 +213,32 @@ fn gen_impl_delegation_trait_defs(
                     continue;
                 }
 
-                if let Some(first_arg) = trait_fn.entrait_sig.sig.inputs.first_mut() {
-                    if let syn::FnArg::Receiver(receiver) = first_arg {
-                        *first_arg = if let Some((and, lifetime)) = receiver.reference.clone() {
-                            syn::parse_quote! {
-                                __impl: #and #lifetime ::#entrait::Impl<EntraitT>
+                // `&self`, `&'a self` or the typed `self: &Self` / `self: &'a Self`
+                let reference = match trait_fn.entrait_sig.sig.inputs.first() {
+                    Some(syn::FnArg::Receiver(receiver)) => match &receiver.reference {
+                        Some((and, lifetime)) => Some((*and, lifetime.clone())),
+                        None => match receiver.ty.as_ref() {
+                            syn::Type::Reference(reference) if reference.mutability.is_none() => {
+                                Some((reference.and_token, reference.lifetime.clone()))
                             }
-                        } else {
-                            syn::parse_quote! {
-                                __impl: ::#entrait::Impl<EntraitT>
-                            }
+                            _ => None,
+                        },
+                    },
+                    _ => continue,
+                };
+
+                let impl_receiver: syn::FnArg = match reference {
+                    Some((and, lifetime)) => {
+                        syn::parse_quote! {
+                            __impl: #and #lifetime ::#entrait::Impl<EntraitT>
                         }
                     }
+                    None => syn::parse_quote! {
+                        __impl: ::#entrait::Impl<EntraitT>
+                    },
+                };
+                if let Some(first_arg) = trait_fn.entrait_sig.sig.inputs.first_mut() {
+                    *first_arg = impl_receiver;
                 }
             }
 
